@@ -54,6 +54,14 @@ FLAVORS = {
         ldflags="",
         targets=["interrogate", "interrogate_module", "parse_file"],
     ),
+    # the repository's own default configuration (CMAKE_BUILD_TYPE=Standard: -O3 -ffast-math ...), no sanitizer
+    "standard": dict(
+        cxx="g++",
+        flags="",
+        ldflags="",
+        bt="Standard",
+        targets=["interrogate", "interrogate_module", "parse_file"],
+    ),
     # clang libFuzzer instrumentation of the libraries only
     "fuzz": dict(
         cxx="clang++-14",
@@ -150,7 +158,7 @@ def build(flavor="asan", quiet=True):
             shutil.rmtree(root, ignore_errors=True)
             os.makedirs(root)
             cmd = ["cmake", "-G", "Ninja", "-S", src, "-B", root,
-                   "-DCMAKE_BUILD_TYPE=Debug", "-DCMAKE_UNITY_BUILD=OFF",
+                   "-DCMAKE_BUILD_TYPE=" + fl.get("bt", "Debug"), "-DCMAKE_UNITY_BUILD=OFF",
                    "-DBUILD_SHARED_LIBS=OFF", "-DHAVE_PYTHON=OFF",
                    "-DCMAKE_CXX_COMPILER=" + fl["cxx"],
                    "-DCMAKE_CXX_FLAGS=" + fl["flags"] + " -Wno-error",
